@@ -269,7 +269,9 @@ def run(rep, program: Program, tier: str) -> None:
     from . import c10
 
     n0 = len(rep.rules)
-    _r1, r4, r5c = c10.rule_algebra(rep, program)
+    # only the square-root members and the classes that carry a triangular factor matter here: a member of another
+    # class that the algebra cannot evaluate is C10's concern
+    _r1, r4, r5c = c10.rule_algebra(rep, program, relevant=lambda cname, member: member == "_construct_sqrt" or "Definite" in cname or "Triangular" in cname)
     rp = c10.rule_parity(rep, program)
     rep.rules = rep.rules[:n0]
     r = rep.rule("R5", "square-root factors: S S^T = M in the operator algebra for every class whose sqrt the momentum draw can use; sign-carrying low-rank sqrt has pure parity", floor=6)
